@@ -104,6 +104,7 @@ DECL_REAL(time_t, time, time_t *)
 // =====================================================================================
 // shared-memory structures (coordinator / workers / execution children)
 // =====================================================================================
+extern "C" int __asan_address_is_poisoned(void const volatile *addr) __attribute__((weak));
 namespace
 {
 constexpr int MAXT = 32;
@@ -778,8 +779,24 @@ uint64_t absToMonoDeadline(clockid_t c, const struct timespec *abs)
   return uint64_t(a);
 }
 
+// A synchronisation object that lives in freed (or otherwise poisoned) memory: the hooks below are not
+// sanitizer-instrumented and keep their own state per address, so without this check "lock a mutex inside an
+// object that was already destroyed" would go unnoticed in the ASan flavour.  Reported like an ASan finding.
+static void poisonCheck(const void *obj, const char *op)
+{
+  if (!&__asan_address_is_poisoned || !S.inChild || !obj)
+    return;
+  if (__asan_address_is_poisoned(obj))
+  {
+    char d[200];
+    snprintf(d, sizeof d, "%s on a synchronisation object at %p that lies in freed/poisoned memory (use after free of the object containing it)", op, obj);
+    mc_violation("no-crash-no-ub", "asan:heap-use-after-free", d);
+  }
+}
 int condWaitCommon(Thr *self, pthread_cond_t *c, pthread_mutex_t *m, uint64_t deadline)
 {
+  poisonCheck(c, "condition wait");
+  poisonCheck(m, "condition wait (mutex)");
   SyncObj *oc = findObj(c), *om = findObj(m);
   point(self, OP_COND_ENTER, oc, om);
   HB_REL(m);
@@ -796,6 +813,8 @@ int condWaitCommon(Thr *self, pthread_cond_t *c, pthread_mutex_t *m, uint64_t de
   self->obj2 = om;
   scheduleFrom(self);
   // resumed: own the mutex again
+  poisonCheck(c, "wake-up from a condition wait");
+  poisonCheck(m, "mutex re-acquisition after a condition wait");
   for (int i = 0; i < oc->nw; ++i)
     if (oc->waiters[i] == self->id)
     {
@@ -1108,6 +1127,7 @@ void mc_quiesce(uint64_t advance_ns)
   self->deadline = 0;
 }
 
+
 // =====================================================================================
 // hooks
 // =====================================================================================
@@ -1128,6 +1148,7 @@ extern "C"
       }
       return real_pthread_mutex_lock(m);
     }
+    poisonCheck(m, "mutex lock");
     SyncObj *o;
     {
       RtGuard g;
@@ -1163,6 +1184,7 @@ extern "C"
       LOAD_REAL(pthread_mutex_trylock);
       return real_pthread_mutex_trylock(m);
     }
+    poisonCheck(m, "mutex trylock");
     SyncObj *o;
     {
       RtGuard g;
@@ -1192,6 +1214,7 @@ extern "C"
       }
       return real_pthread_mutex_unlock(m);
     }
+    poisonCheck(m, "mutex unlock");
     SyncObj *o;
     {
       RtGuard g;
@@ -1248,6 +1271,7 @@ extern "C"
       LOAD_REAL(pthread_cond_signal);
       return real_pthread_cond_signal(c);
     }
+    poisonCheck(c, "condition notify");
     condNotify(self, c, false);
     return 0;
   }
@@ -1259,6 +1283,7 @@ extern "C"
       LOAD_REAL(pthread_cond_broadcast);
       return real_pthread_cond_broadcast(c);
     }
+    poisonCheck(c, "condition notify_all");
     condNotify(self, c, true);
     return 0;
   }
@@ -1354,6 +1379,7 @@ extern "C"
       LOAD_REAL(pthread_rwlock_rdlock);
       return real_pthread_rwlock_rdlock(l);
     }
+    poisonCheck(l, "rwlock rdlock");
     SyncObj *o;
     {
       RtGuard g;
@@ -1373,6 +1399,7 @@ extern "C"
       LOAD_REAL(pthread_rwlock_wrlock);
       return real_pthread_rwlock_wrlock(l);
     }
+    poisonCheck(l, "rwlock wrlock");
     SyncObj *o;
     {
       RtGuard g;
@@ -1432,6 +1459,7 @@ extern "C"
       LOAD_REAL(pthread_rwlock_unlock);
       return real_pthread_rwlock_unlock(l);
     }
+    poisonCheck(l, "rwlock unlock");
     SyncObj *o;
     {
       RtGuard g;
